@@ -651,8 +651,15 @@ def state_fallthrough(ctx, rule="EXH-state-fallthrough"):
     helpers = set(called)
     for f in called:
         helpers |= reach(f)
-    mentions = {f for f in helpers if "state_p" in {n.id for n in ast.walk(mod_funcs[f]) if isinstance(n, ast.Name)}}
-    recursive = library or any(f in reach(f) for f in mentions)
+    # module-level constants holding the state primitive (e.g. a tuple of the three primitives) count as a mention of it
+    const_names = {t.id for st in amod.tree.body if isinstance(st, (ast.Assign, ast.AnnAssign)) and getattr(st, "value", None) is not None
+                   and any(isinstance(n, ast.Name) and n.id == "state_p" for n in ast.walk(st.value))
+                   for t in (st.targets if isinstance(st, ast.Assign) else [st.target]) if isinstance(t, ast.Name)}
+
+    def mentions_state(f):
+        return any(isinstance(n, ast.Name) and (n.id == "state_p" or n.id in const_names) for n in ast.walk(mod_funcs[f]))
+    # a helper on a call-graph cycle (direct or mutual recursion) such that the cycle reaches a function testing for the state primitive
+    recursive = library or any(f in reach(f) and any(mentions_state(g) for g in reach(f) | {f}) for f in helpers)
     if not recursive:
         ctx.bad(rule, construct, "the tag search descends into nested sub-jaxprs",
                 "only the equations of the immediate sub-jaxpr are inspected: a value saved one level deeper (a jitted helper inside a cond branch) is still dropped silently", loc)
